@@ -1585,12 +1585,15 @@ fn mutate_bp(
             miss.remove(j);
             parts = bp_parts(chain, last, &numbers, miss)?;
             let k = numbers.iter().position(|x| *x == n)?;
-            parts.headers.insert(k + 1, fh.data());
+            // right behind the real block, or behind other headers (the MMR library sorts the
+            // leaves before it drops all but one per position: the two need not be neighbours)
+            let at = if numbers.len() >= 2 && (n + hashes.len() as u64 + rng.below(2)) % 2 == 0 { parts.headers.len() } else { k + 1 };
+            parts.headers.insert(at, fh.data());
             let u = parts.uncles_hashes[k].clone();
-            parts.uncles_hashes.insert(k + 1, u);
+            parts.uncles_hashes.insert(at, u);
             let e = parts.extensions[k].clone();
-            parts.extensions.insert(k + 1, e);
-            note = format!("forged header at height {} served after the real block of that height", n);
+            parts.extensions.insert(at, e);
+            note = format!("forged header at height {} served {} the real block of that height", n, if at == k + 1 { "right after" } else { "some headers after" });
         }
         _ => return None,
     }
